@@ -57,6 +57,13 @@ SPECS = [
          ],
          raises={'*': {'ensures': ["raised('e1') or (ext_count() == 1 and ext_raised(0) and ext_token(0) is None)"]}},
          serves=['C12', 'C09'], no_fresh=True),
+    dict(id='S-TwoMacros',
+         # two macros in one template: the second one (and the whole-template function) do not touch
+         # the first one's slot
+         text='A<m metal:define-macro="m1"><d metal:define-slot="s">%s</d></m><n metal:define-macro="m2">y</n>B' % H1,
+         ensures=["ext_count() == 2"],
+         raises={'*': {'ensures': ["ext_raised(0) or ext_raised(1)"]}},
+         serves=['C09'], no_fresh=True),
     dict(id='S-MacroBody', fname='render_m',
          text='A<m metal:define-macro="m">%s<d metal:define-slot="s">%s</d></m>B' % (H1, H2),
          ensures=[
